@@ -40,6 +40,9 @@ enum OpKind {
     /// stack (counting layer under `GlobalEnable`, as chess-cli installs it); the result is
     /// whether the event was delivered - the thread's view as the logging layer consumes it
     Emit(usize),
+    /// an event handed to the dispatcher directly (`tracing::Event::dispatch`, what bridges
+    /// that build events themselves do): it skips the `enabled()` pre-check the macros make
+    EmitDirect,
     /// tracing re-evaluates every call site's cached interest (it does so whenever a
     /// subscriber is created or dropped anywhere in the process); here the calling thread
     /// triggers it
@@ -74,6 +77,7 @@ fn op_name(o: OpKind) -> String {
         OpKind::DropToken(i) => format!("drop_token#{i}"),
         OpKind::IsEnabled => "is_enabled".into(),
         OpKind::Emit(i) => format!("emit@{i}"),
+        OpKind::EmitDirect => "emit_direct".into(),
         OpKind::Rebuild => "rebuild_interest".into(),
     }
 }
@@ -100,6 +104,26 @@ fn emit(site: usize) -> bool {
     } else {
         tracing::warn!("site 1");
     }
+    DELIVERED.with(|c| c.get()) != before
+}
+
+static DIRECT_CS: tracing::callsite::DefaultCallsite = tracing::callsite::DefaultCallsite::new(&DIRECT_META);
+static DIRECT_META: tracing::Metadata<'static> = tracing::metadata! {
+    name: "direct",
+    target: "direct",
+    level: tracing::Level::INFO,
+    fields: &["message"],
+    callsite: &DIRECT_CS,
+    kind: tracing::metadata::Kind::EVENT
+};
+
+/// one event dispatched without the macros' pre-check; true if it was delivered
+fn emit_direct() -> bool {
+    let before = DELIVERED.with(|c| c.get());
+    let fields = DIRECT_META.fields();
+    let message = fields.field("message").unwrap();
+    let values = [(&message, Some(&"direct" as &dyn tracing::Value))];
+    tracing::Event::dispatch(&DIRECT_META, &fields.value_set(&values));
     DELIVERED.with(|c| c.get()) != before
 }
 
@@ -155,6 +179,7 @@ fn thread_body(b: Arc<Baton>, tid: usize, ops: Vec<OpKind>, log: Arc<Mutex<Vec<E
                 }
             }
             OpKind::Emit(site) => res = Some(emit(site)),
+            OpKind::EmitDirect => res = Some(emit_direct()),
             OpKind::Rebuild => tracing::callsite::rebuild_interest_cache(),
         }));
         let ret = clock.fetch_add(1, Ordering::SeqCst);
@@ -190,7 +215,7 @@ fn run(mut t: Tape) -> RunOut {
         for _ in 0..n {
             let o = match t.choose(15) {
                 12 | 13 => OpKind::Emit(t.choose(2) as usize),
-                14 => *t.pick(&[OpKind::Rebuild, OpKind::Emit(0)]),
+                14 => *t.pick(&[OpKind::Rebuild, OpKind::EmitDirect, OpKind::EmitDirect]),
                 0 | 1 | 2 => OpKind::IsEnabled,
                 3 => OpKind::Enable,
                 4 => OpKind::Disable,
@@ -385,12 +410,12 @@ fn thread_pass(events: &[Event], tid: usize, v: &Variant) -> Result<Vec<GOp>, St
             // re-evaluating cached interests changes nobody's view
             OpKind::Rebuild => {}
             // an event is delivered exactly when the emitting thread's view says "enabled"
-            OpKind::IsEnabled | OpKind::Emit(_) => {
+            OpKind::IsEnabled | OpKind::Emit(_) | OpKind::EmitDirect => {
                 let got = e.res.unwrap_or(false);
                 match l {
                     L::On | L::Off => {
                         if got != (l == L::On) {
-                            if matches!(e.op, OpKind::Emit(_)) {
+                            if matches!(e.op, OpKind::Emit(_) | OpKind::EmitDirect) {
                                 return Err(format!("via=layer|{what}: event {} although the thread's own override is {l:?}", if got { "delivered" } else { "dropped" }));
                             }
                             return Err(format!("{what} returned {got} although the thread's own override is {l:?}"));
@@ -477,7 +502,7 @@ fn judge(events: &[Event], nthreads: usize, initial: bool, final_read: bool) -> 
             if linearizable(&all, initial) {
                 return None;
             }
-            let via = if events.iter().any(|e| matches!(e.op, OpKind::Emit(_))) { ";with-events=1" } else { "" };
+            let via = if events.iter().any(|e| matches!(e.op, OpKind::Emit(_) | OpKind::EmitDirect)) { ";with-events=1" } else { "" };
             failed = Some((format!("kind=global-history-not-linearizable{via}"), format!("no linearization of [{}] from initial={initial}", all.iter().map(|o| o.what.clone()).collect::<Vec<_>>().join(", "))));
         }
         if vi == 0 {
